@@ -226,9 +226,19 @@ Example C13_example :
   length (b_trace (run_model k2 1)) = 4%nat /\
   map w_steps (b_trace (run_model k 5)) = [0; 1; 2; 3] /\
   steps_target (params_of k) 5 = 3 /\ steps_target (params_of [(0, 2)]) 5 = 5 /\
-  all_values [(0, PMany [1; 2]); (6, PSingle 7)] = Some [(0, [1; 2]); (6, [7])].
+  all_values [(0, PMany [1; 2]); (6, PSingle 7)] = Some [(0, [1; 2]); (6, [7])] /\
+  (* what the TRANSLATED per-parameter decision does with numpy arrays: a 0-d array is not a str, not a
+     list|tuple|set and iterating it raises TypeError -> one value; a 1-d array -> its elements; an EMPTY 1-d
+     array is not rejected (only empty list|tuple|set are) -> no values -> no runs; an empty list -> ValueError *)
+  gen_param_values 0 false false false 0 2 [] = Some [(0, 2)] /\
+  gen_param_values 0 false false true 2 99 [4; 5] = Some [(0, 4); (0, 5)] /\
+  gen_param_values 0 false false true 0 99 [] = Some [] /\
+  gen_param_values 0 false true true 0 99 [] = None /\
+  consistent (PMany []) false false true 0 99 [] /\
+  runs_list 3 (product [(0, []); (6, [1; 2])]) = [].
 Proof.
   cbv zeta. split; [vm_compute; reflexivity|]. split.
   - intros p [H|[H|[]]]; subst; simpl; repeat constructor; simpl; intuition congruence.
-  - repeat split; vm_compute; reflexivity.
+  - repeat split; try (vm_compute; reflexivity).
+    apply (CSeq [] 99 false). right. reflexivity.
 Qed.
